@@ -2244,6 +2244,15 @@ class ktensor:
             modes[:-1] <= modes[1:]
         ), "Modes must be sorted in ascending order"
 
+        # Check the amount of data before changing anything
+        needed = sum(
+            self.ncomponents if k == -1 else self.shape[k] * self.ncomponents
+            for k in modes
+            if k < self.ndims
+        )
+        if len(data) < needed:
+            assert False, "Data is too short"
+
         loc = 0  # Location in data array
         for k in modes:
             if k == -1:
